@@ -486,6 +486,11 @@ func r044(c *Ctx) {
 	}
 	for _, f := range []*types.Var{hostsF, prefF} {
 		for _, w := range c.writesOfField(f) {
+			// (setting the field of a function's own local copy - `options := *so; options.Hosts = hosts; return options` -
+			// edits no service's bindings)
+			if a, isLocal := w.base.(*ssa.Alloc); isLocal && !a.Heap {
+				continue
+			}
 			o := fname(outer(w.fn))
 			allowed := map[string]bool{"(*server.ServiceOptions).Normalize": true, "(*server.ServiceOptions).WithHosts": true, "(*server.ServiceOptions).WithPathPrefixes": true, "(*server.Service).UnmarshalJSON": true}
 			c.ob(rule, "write ServiceOptions."+f.Name()+" <- "+o, w.instr.Pos(), allowed[o], false, "bindings of a service may not be edited after construction")
